@@ -58,6 +58,8 @@ inline uint64_t hashBytes(const std::string& s) { Hash64 h; h.str(s); return h.h
 // Read window of the simulated input stream (F-CHUNK): 0 = the whole image is the get area (as with an istringstream);
 // w > 0 = at most w bytes are buffered at a time (as with a file stream: in_avail() and the get area end before the file does).
 inline size_t& simReadWindow() { static size_t w = 0; return w; }
+// F-REUSE (plan knob "reuse_object"): restarts load the saved file back into the NifFile object that wrote it
+inline bool& simReuseObject() { static bool r = false; return r; }
 
 struct SimIBuf : std::streambuf {
 	std::string img;
